@@ -7,7 +7,7 @@
    objects, `None` = objects created by the call; a node object is addressed by its position
    (child indices from the root), `subtree_at t q`; `paths t` = name paths of all nodes in
    pre-order; `branch_of path sep` = path.lstrip(sep).rstrip(sep).split(sep). *)
-From BT Require Import Base.Prelude Base.Str Base.Rose Algo.Construct Spec.PC05 Algo.ConstructProofs
+From BT Require Import Base.Prelude Base.Str Base.StrSep Base.Rose Algo.Construct Spec.PC05 Algo.ConstructProofs
      Corr.ConstructCorr.
 
 (* ---- add_path_to_tree, duplicate_name_allowed = True ------------------------------------ *)
@@ -346,18 +346,20 @@ Proof. exact add_rows_true_false. Qed.
 Print Assumptions C05_no_dup_accepts_distinct.
 
 (* in the vocabulary of the specification: accepted iff every path is well formed and the last
-   components of the closure are pairwise distinct (acc_spec), both settings of the flag *)
-Theorem C05_accept_verdict : forall (dup : bool) c tsep b rows,
+   components of the closure are pairwise distinct (acc_spec), both settings of the flag; separators
+   of any positive length (PG: the two readings of each path string agree, see C05_parse_guard_rendered) *)
+Theorem C05_accept_verdict : forall (dup : bool) sp tsep b rows,
+  (forall r, In r rows -> PG sp (fst r)) ->
   sib_ok b -> nonempty_names b ->
-  (dup = true \/ exists c2, tsep = [c2] /\ nodup_guard c c2 b rows) ->
-  match add_rows b tsep [c] dup rows [] with
+  (dup = true \/ (tsep <> [] /\ nodup_guard sp tsep b rows)) ->
+  match add_rows b tsep sp dup rows [] with
   | (t', Ret ps) =>
-      acc_spec dup c b rows = true /\ add_rows b tsep [c] true rows [] = (t', Ret ps)
+      acc_spec dup sp b rows = true /\ add_rows b tsep sp true rows [] = (t', Ret ps)
       /\ (dup = true \/ NoDup (names t'))
   | (t1, Raise e) =>
-      acc_spec dup c b rows = false /\
+      acc_spec dup sp b rows = false /\
       (match rows with
-       | (s0, _) :: _ => match spec_parse s0 [c] with [] => true | r :: _ => negb (str_eqb r (tname b)) end = true
+       | (s0, _) :: _ => match spec_parse s0 sp with [] => true | r :: _ => negb (str_eqb r (tname b)) end = true
        | [] => False
        end -> t1 = b)
   end.
@@ -457,4 +459,138 @@ Example C05_no_dup_accept_iff_nonvacuous :
   exists t' ps, add_rows ex_tree [47%N] ex_slash false ex_rows [] = (t', Ret ps) /\ NoDup (names ex_tree).
 Proof.
   eexists. eexists. split; [vm_compute; reflexivity|]. repeat constructor; cbn; intuition discriminate.
+Qed.
+
+(* ==== round 3: separators of any positive length ============================================
+   Guard throughout: sep <> [] and no character of the separator occurs in a name / path component
+   (sfree / sgood of Base/StrSep.v), components non-empty.  The one-character theorems above are
+   instances (sfree [c] x <-> ~ In c x).  Without the guard the clauses are false for separators of
+   length >= 2 (known finding K3-C05, Example C05_multichar_sep_refuted). *)
+
+(* a leading / trailing separator changes nothing -- needs no guard on the names at all *)
+Theorem C05_leading_trailing_sep_multi : forall t tsep sp path dup na,
+  sp <> [] -> path <> [] ->
+  add_path_to_tree t tsep (sp ++ path) sp dup na = add_path_to_tree t tsep path sp dup na
+  /\ add_path_to_tree t tsep (path ++ sp) sp dup na = add_path_to_tree t tsep path sp dup na.
+Proof. intros. split; [now apply add_path_leading_sep_multi|now apply add_path_trailing_sep_multi]. Qed.
+Print Assumptions C05_leading_trailing_sep_multi.
+
+Theorem C05_sep_independent_multi : forall sp1 sp2 nms t tsep dup na,
+  sp1 <> [] -> sp2 <> [] -> nms <> [] -> Forall (sgood sp1) nms -> Forall (sgood sp2) nms ->
+  add_path_to_tree t tsep (join sp1 nms) sp1 dup na
+  = add_path_to_tree t tsep (join sp2 nms) sp2 dup na.
+Proof. exact add_path_sep_independent_multi. Qed.
+Print Assumptions C05_sep_independent_multi.
+
+Theorem C05_parse_agrees_multi : forall sp nms,
+  sp <> [] -> nms <> [] -> Forall (sgood sp) nms ->
+  spec_parse (join sp nms) sp = nms /\ branch_of (join sp nms) sp = nms.
+Proof. exact spec_parse_join_multi. Qed.
+Print Assumptions C05_parse_agrees_multi.
+
+(* add_path_to_tree on a rendered name list: paths = before ∪ prefixes of the NAME LIST, node objects
+   reused, returned node at that name path (C05_add_path_paths / _reuses / _returns hold for every
+   separator as stated; this instantiates branch_of) *)
+Theorem C05_add_path_paths_multi : forall t tsep sp nms na t' p,
+  sp <> [] -> nms <> [] -> Forall (sgood sp) nms ->
+  add_path_to_tree t tsep (join sp nms) sp true na = (t', Ret p) ->
+  (forall q, In q (paths t') <-> In q (paths t) \/ In q (prefixes nms))
+  /\ names_along t' p = nms
+  /\ (forall q s, subtree_at t q = Some s ->
+        exists s', subtree_at t' q = Some s' /\ ttag s' = ttag s /\ tname s' = tname s).
+Proof.
+  intros t tsep sp nms na t' p Hs Hne Hg H.
+  pose proof (branch_of_join_multi sp nms Hs Hne Hg) as Hb. split; [|split].
+  - intros q. rewrite <- Hb. exact (add_path_paths _ _ _ _ _ _ _ H q).
+  - rewrite <- Hb. exact (proj2 (add_path_returns _ _ _ _ _ _ _ H)).
+  - intros q s Hq. destruct (add_path_reuses _ _ _ _ _ _ _ H) as (Hr & _ & _).
+    destruct (Hr q s Hq) as (s' & Hs' & Ht & Hn & _). eauto.
+Qed.
+Print Assumptions C05_add_path_paths_multi.
+
+(* duplicate names disallowed, the tree's own separator of any length *)
+Theorem C05_no_dup_names_multi : forall tsep t path sep na t' p,
+  tsep <> [] -> NoDup (names t) -> cleans tsep t -> Forall (sfree tsep) (branch_of path sep) ->
+  add_path_to_tree t tsep path sep false na = (t', Ret p) ->
+  add_path_to_tree t tsep path sep true na = (t', Ret p) /\ NoDup (names t').
+Proof.
+  intros tsep t path sep na t' p Hts Hn Hc Hb H. split.
+  - exact (add_path_false_true_multi tsep t path sep na t' p Hts Hn Hc Hb H).
+  - exact (add_path_false_names t tsep path sep na t' p Hn H).
+Qed.
+Print Assumptions C05_no_dup_names_multi.
+
+Theorem C05_no_dup_accept_iff_multi : forall tsep t sep rows t' ps,
+  tsep <> [] -> NoDup (names t) -> cleans tsep t ->
+  (forall r, In r rows -> Forall (sfree tsep) (branch_of (fst r) sep)) ->
+  (add_rows t tsep sep false rows [] = (t', Ret ps)
+   <-> add_rows t tsep sep true rows [] = (t', Ret ps) /\ NoDup (names t')).
+Proof. exact no_dup_accept_iff_multi. Qed.
+Print Assumptions C05_no_dup_accept_iff_multi.
+
+(* the guard on a path string: `rendered` strings (a list of sgood names joined by the separator, any
+   number of whole leading/trailing separators; or separators only) are read alike by the
+   specification and by the code (PG); for a one-character separator every string is *)
+Theorem C05_parse_guard_rendered : forall sp s, sp <> [] -> rendered sp s -> PG sp s.
+Proof. exact rendered_PG. Qed.
+Print Assumptions C05_parse_guard_rendered.
+
+Theorem C05_parse_guard_single : forall c s, PG [c] s.
+Proof. exact PG_single. Qed.
+Print Assumptions C05_parse_guard_single.
+
+(* the umbrella theorems for separators of any positive length.  Guard: every path string satisfies
+   PG (e.g. is `rendered`); with duplicate names disallowed additionally nodup_guard: start names
+   distinct and no character of the separator the tree works with in any name or path component *)
+Theorem C05_model_satisfies_prop_list_multi : forall i,
+  i_sep i <> [] -> (forall r, In r (i_rows i) -> PG (i_sep i) (fst r)) ->
+  (guards KList i = true -> i_dup i = false ->
+   nodup_guard (i_sep i) (i_sep i) (base KList i) (i_rows i)) ->
+  prop_C05 KList i (run KList i) = true.
+Proof. exact model_satisfies_list_multi. Qed.
+Print Assumptions C05_model_satisfies_prop_list_multi.
+
+Theorem C05_model_satisfies_prop_dict_multi : forall i,
+  i_sep i <> [] -> (forall r, In r (i_rows i) -> PG (i_sep i) (fst r)) ->
+  (guards KDict i = true -> i_dup i = false ->
+   nodup_guard (i_sep i) (i_sep i) (base KDict i) (i_rows i)) ->
+  prop_C05 KDict i (run KDict i) = true.
+Proof. exact model_satisfies_dict_multi. Qed.
+Print Assumptions C05_model_satisfies_prop_dict_multi.
+
+Theorem C05_model_satisfies_prop_add_path_multi : forall i,
+  i_sep i <> [] -> (forall r, In r (i_rows i) -> PG (i_sep i) (fst r)) -> attrs_wf (i_tree i) ->
+  (guards KAddPath i = true -> i_dup i = false ->
+   i_tsep i <> [] /\ nodup_guard (i_sep i) (i_tsep i) (i_tree i) (i_rows i)) ->
+  prop_C05 KAddPath i (run KAddPath i) = true.
+Proof. exact model_satisfies_add_path_multi. Qed.
+Print Assumptions C05_model_satisfies_prop_add_path_multi.
+
+Theorem C05_model_satisfies_prop_add_dict_multi : forall i,
+  i_sep i <> [] -> (forall r, In r (i_rows i) -> PG (i_sep i) (fst r)) -> attrs_wf (i_tree i) ->
+  (guards KAddDict i = true -> i_dup i = false ->
+   i_tsep i <> [] /\ nodup_guard (i_sep i) (i_tsep i) (i_tree i) (i_rows i)) ->
+  prop_C05 KAddDict i (run KAddDict i) = true.
+Proof. exact model_satisfies_add_dict_multi. Qed.
+Print Assumptions C05_model_satisfies_prop_add_dict_multi.
+
+(* non-vacuity with the separator "->" (and tree separator "::"): rendered rows, guards true, accepted *)
+Definition ex_arrow : str := [45; 62]%N.
+Definition ex_colons : str := [58; 58]%N.
+Definition ex_rows_multi : list row :=
+  [([97; 45; 62; 98; 45; 62; 100]%N, [(ex_c, VInt 1)]);          (* "a->b->d"   *)
+   ([45; 62; 97; 45; 62; 99; 45; 62]%N, []);                      (* "->a->c->"  *)
+   ([97; 45; 62; 98]%N, [(ex_b, VInt 0)])].                       (* "a->b"      *)
+Example C05_multi_nonvacuous :
+  let i := MkIn ex_arrow false ex_tree ex_colons [] [80]%N ex_rows_multi in
+  guards KAddPath i = true /\ o_res (run KAddPath i) = None /\ prop_C05 KAddPath i (run KAddPath i) = true
+  /\ guards KDict (MkIn ex_arrow true dummy_tree ex_slash [] [80]%N ex_rows_multi) = true
+  /\ o_res (run KDict (MkIn ex_arrow true dummy_tree ex_slash [] [80]%N ex_rows_multi)) = None.
+Proof. vm_compute. auto 6. Qed.
+
+Example C05_multi_rendered :
+  rendered ex_arrow [45; 62; 97; 45; 62; 99; 45; 62]%N.
+Proof.
+  left. exists 1, 1, [[97]%N; [99]%N]. split; [discriminate|]. split; [|reflexivity].
+  repeat constructor; try discriminate; intros ch [<-|[<-|[]]] H; cbn in H; intuition discriminate.
 Qed.
